@@ -25,6 +25,7 @@ VERIF = os.path.dirname(os.path.dirname(os.path.dirname(os.path.abspath(__file__
 LEAN_ROOT = os.path.join(VERIF, "lean", "OFCore")
 BIN = os.path.join(LEAN_ROOT, ".lake", "build", "bin")
 REPO = os.environ.get("OFV_REPO", "/repo")
+SEARCH_SECONDS = {"quick": 240, "thorough": 1800}    # time budget of the failing-input search
 ALLOWED_AXIOMS = {"propext", "Classical.choice", "Quot.sound"}
 FORBIDDEN = re.compile(r"\bsorry\b|\badmit\b|^\s*axiom\s|native_decide|bv_decide|implemented_by|\bunsafe\s|maxHeartbeats\s+0\b|reduceBool|ofReduceBool")
 NPROC = int(os.environ.get("OFV_NPROC", "16"))
@@ -486,23 +487,35 @@ def run_check(modname: str, tier: str, seed: int, replay: Optional[str] = None) 
                 for c in seeds_cases:
                     extra += list(prop.neighbours(c))
             r2 = random.Random(seed + 1)
+            cap = SEARCH_CAP if tier == "thorough" else min(SEARCH_CAP, 60000)
             for _ in range(prop.search_budget_factor):
                 extra += list(prop.generate(r2, tier))
-                if len(extra) > SEARCH_CAP:
+                if len(extra) > cap:
                     break
             if prop.enumerate_thorough and tier != "thorough":
                 enum = list(prop.enumerate_thorough())
-                if len(enum) > SEARCH_CAP:
-                    enum = r2.sample(enum, SEARCH_CAP)
+                if len(enum) > cap:
+                    enum = r2.sample(enum, cap)
                 extra += enum
             for c in extra:
                 c.origin = "search"
             log(f"proof_ok={proof_ok} corr_ok={corr_ok}: searching {len(extra)} further inputs with the oracle")
-            for (io, orc, nt), c in zip(run_impl(modname, extra), extra):
-                if orc is not None and match_known(pid, orc[0], known) is None and not io.startswith("HARNESS-CRASH"):
-                    cand = Outcome(c, io, "", orc, nt)
-                    if found is None or len(c.line) < len(found.case.line):
-                        found = cand
+            # in chunks: stop at the first chunk that contains a failing input, or when the time budget is spent
+            t_search = time.time()
+            budget = SEARCH_SECONDS[tier]
+            chunk = max(200, NPROC * 100)
+            searched = 0
+            for i in range(0, len(extra), chunk):
+                part = extra[i:i + chunk]
+                for (io, orc, nt), c in zip(run_impl(modname, part), part):
+                    if orc is not None and match_known(pid, orc[0], known) is None and not io.startswith("HARNESS-CRASH"):
+                        cand = Outcome(c, io, "", orc, nt)
+                        if found is None or len(c.line) < len(found.case.line):
+                            found = cand
+                searched += len(part)
+                if found is not None or time.time() - t_search > budget:
+                    break
+            log(f"search: {searched} inputs in {time.time() - t_search:.0f}s, failing input {'found' if found else 'not found'}")
         if found is not None:
             path = write_replay(pid, "impl-violation", seed, {
                 "signature": found.oracle[0], "oracle_message": found.oracle[1],
